@@ -56,6 +56,10 @@ type c28Case struct {
 	Reload       bool   `json:"reload,omitempty"` // also call Config.Reload() on the unchanged files
 	// request mode
 	Reqs []c28Req `json:"reqs,omitempty"`
+	// Tag (hand-kept regression cases only) is appended to every signature this
+	// case produces, so that a regression of a FIXED defect can never be masked by
+	// a known finding that happens to panic in the same function.
+	Tag string `json:"tag,omitempty"`
 }
 
 const (
@@ -88,7 +92,7 @@ func genC28(t *rapid.T) c28Case {
 }
 
 func execC28(c c28Case) vkit.Result {
-	res := execC28Confirmed(c)
+	res := execC28Tagged(c)
 	if d := os.Getenv("C28_DUMP_INCONCLUSIVE"); d != "" { // development aid
 		for _, cl := range res.Classes {
 			if cl == "inconclusive-timing" {
@@ -100,6 +104,10 @@ func execC28(c c28Case) vkit.Result {
 	if os.Getenv("C28_SURVEY") != "" { // development aid: histogram of signatures instead of stopping at the first
 		for _, v := range res.Violations {
 			res.Class("survey:" + v.Signature)
+			if d := os.Getenv("C28_DUMP_VIOLATIONS"); d != "" && !c28IsKnown(v.Signature) {
+				b, _ := json.MarshalIndent(map[string]any{"property": "C28", "signature": v.Signature, "detail": v.Detail, "case": c}, "", " ")
+				os.WriteFile(fmt.Sprintf("%s/%s-%d.json", d, c28Slug(v.Signature), len(b)), b, 0o644)
+			}
 		}
 		res.Violations = nil
 	}
@@ -132,6 +140,16 @@ func c28IsKnown(sig string) bool {
 		}
 	})
 	return c28KnownSigs[sig]
+}
+
+func execC28Tagged(c c28Case) vkit.Result {
+	res := execC28Confirmed(c)
+	if c.Tag != "" {
+		for i := range res.Violations {
+			res.Violations[i].Signature += "#" + c.Tag
+		}
+	}
+	return res
 }
 
 func execC28Confirmed(c c28Case) vkit.Result {
@@ -210,6 +228,11 @@ func c28JudgeDeath(res *vkit.Result, d *c28Death, where, ctx string) {
 		res.Obs = fmt.Sprintf("%s: %d bytes requested", label, oom)
 		return
 	}
+	if label == "harness-code-in-child" {
+		res.Class("inconclusive-infrastructure")
+		res.Obs = "the child died in harness code: " + c28Tail(d.Stderr, 600)
+		return
+	}
 	if strings.HasPrefix(label, "exit(signal-killed)") {
 		res.Class("inconclusive-infrastructure")
 		res.Obs = "worker was killed: " + c28Tail(d.Stderr, 300)
@@ -246,6 +269,9 @@ func c28StageKind(stage string) string {
 	if strings.HasPrefix(stage, "getters ") {
 		return "getters"
 	}
+	if strings.HasPrefix(stage, "sampler-run ") { // the frame names the sampler; the outer type would only split one defect
+		return "sampler-run"
+	}
 	return strings.ReplaceAll(stage, " ", "-")
 }
 
@@ -273,7 +299,9 @@ func c28RunConfig(c c28Case, fresh bool) vkit.Result {
 			return res
 		}
 		res.NonTrivial = true
-		c28JudgeDeath(&res, death, "config/"+stage, "after validation had accepted the files, during stage "+c28LastStage(death.Stderr))
+		// the stage is not part of the signature: a goroutine started by a sampler
+		// may bring the process down a moment later, whatever we are doing then
+		c28JudgeDeath(&res, death, "config", "after validation had accepted the files, during stage "+c28LastStage(death.Stderr))
 		return res
 	}
 	if rep.Err != "" {
@@ -594,6 +622,12 @@ func c28RunRequest(c c28Case, fresh bool) vkit.Result {
 				return res
 			}
 			c28KillWorker()
+			if blk == "" {
+				// CPU was burnt, but not by a goroutine inside refinery's request handling
+				res.Class("cpu-burnt-outside-refinery-handlers(not judged)")
+				res.Obs = desc
+				return res
+			}
 			res.Violate("C28/request/"+ep+"/cpu-spin-without-answer@"+frame, "%s for %s\n--- busy goroutine ---\n%s", out.Status, desc, blk[:min(len(blk), 2200)])
 			return res
 		}
